@@ -63,6 +63,11 @@ static int victim_reaped = 0, victim_status = 0;
 static int bystander_reaped = 0, bystander_status = 0;
 static int fserver_reaped = 0, fserver_status = 0;
 static int bystander_go_fd = -1;
+/* server-death direction, "dead but not reaped": the forked server has been SIGKILLed and is a
+ * zombie (its descriptors are closed, kill(pid, 0) still succeeds); reap() leaves it alone */
+static int fserver_zombie_hold = 0;
+static int cr_late_reap_at = 0;     /* reap the zombie during the client's k-th nanosleep (0 = never) */
+static int cr_late_sleeps = 0;
 
 /* ------------------------------------------------------------------ children bookkeeping */
 static void reap(void)
@@ -74,12 +79,25 @@ static void reap(void)
 	if (bystander_pid > 0 && !bystander_reaped && waitpid(bystander_pid, &st, WNOHANG) == bystander_pid) {
 		bystander_reaped = 1; bystander_status = st;
 	}
-	if (fserver_pid > 0 && !fserver_reaped && waitpid(fserver_pid, &st, WNOHANG) == fserver_pid) {
+	if (fserver_pid > 0 && !fserver_reaped && !fserver_zombie_hold && waitpid(fserver_pid, &st, WNOHANG) == fserver_pid) {
 		fserver_reaped = 1; fserver_status = st;
 	}
 }
 static int cr_victim_gone(void) { reap(); return victim_pid <= 0 || victim_reaped; }
-static int cr_fserver_gone(void) { reap(); return fserver_pid <= 0 || fserver_reaped; }
+static int cr_fserver_gone(void) { reap(); return fserver_pid <= 0 || fserver_reaped || fserver_zombie_hold; }
+static void fserver_reap_now(void)
+{
+	int st;
+	fserver_zombie_hold = 0;
+	if (fserver_pid > 0 && !fserver_reaped && waitpid(fserver_pid, &st, 0) == fserver_pid) {
+		fserver_reaped = 1; fserver_status = st;
+	}
+}
+/* called by the nanosleep wrapper of the harness-side client */
+static void cr_hclient_sleeps(void)
+{
+	if (cr_late_reap_at > 0 && ++cr_late_sleeps == cr_late_reap_at) fserver_reap_now();
+}
 static void cr_fserver_idle_kill(void)
 {
 	CR_REAL(int, kill, pid_t, int);
@@ -298,6 +316,11 @@ struct snap {
 	long heap;
 };
 
+/* server-death direction: the client is this process, so the entries of the connection under test are
+ * exactly /dev/shm/qb-<server pid>-<this pid>-*.  (Matching on the server's pid alone is not enough on a
+ * shared machine: pids are reused, and other programs' dead servers leave entries behind.) */
+static pid_t snap_cpid = 0;
+
 static void take_snap(struct snap *s, pid_t srvpid)
 {
 	DIR *d;
@@ -321,7 +344,8 @@ static void take_snap(struct snap *s, pid_t srvpid)
 		closedir(d);
 	}
 	s->files = s->dirs = 0;
-	snprintf(pfx, sizeof pfx, "qb-%d-", (int)srvpid);
+	if (snap_cpid) snprintf(pfx, sizeof pfx, "qb-%d-%d-", (int)srvpid, (int)snap_cpid);
+	else snprintf(pfx, sizeof pfx, "qb-%d-", (int)srvpid);
 	d = opendir("/dev/shm");
 	if (d) {
 		while ((e = readdir(d))) {
@@ -709,7 +733,7 @@ static void h_call(qb_ipcc_connection_t *c, const char *api, int tmo) { h_call2(
  * events are queued, N: send a request that gets no response, -: nothing); then the forked server
  * is armed to die at its S-th call (S=0: SIGKILLed and reaped before the call); then API(TMO);
  * then the "later calls"; then disconnect and the residue check. */
-static void server_death_case(enum qb_ipc_type type, const char *pre, const char *api, int tmo, int s, int dry)
+static void server_death_case(enum qb_ipc_type type, const char *pre, const char *api, int tmo, int s, int dry, int direct)
 {
 	struct snap s0, s1;
 	qb_ipcc_connection_t *c;
@@ -770,16 +794,18 @@ static void server_death_case(enum qb_ipc_type type, const char *pre, const char
 			while (!cr_fserver_gone()) cr_real_sleep_us(100);
 		}
 	}
-	/* later calls */
-	h_call(c, "is_connected", 0);
-	h_call(c, "send", 0);
-	h_call(c, "sendv_recv", -1);
-	h_call(c, "sendv_recv", 3000);
-	h_call(c, "event_recv", -1);
-	h_call(c, "event_recv", 0);
-	h_call(c, "recv", 0);
-	h_call(c, "recv", 700);
-	h_call(c, "recv", -1);
+	/* later calls (direct: none, the client's next call is qb_ipcc_disconnect) */
+	if (!direct) {
+		h_call(c, "is_connected", 0);
+		h_call(c, "send", 0);
+		h_call(c, "sendv_recv", -1);
+		h_call(c, "sendv_recv", 3000);
+		h_call(c, "event_recv", -1);
+		h_call(c, "event_recv", 0);
+		h_call(c, "recv", 0);
+		h_call(c, "recv", 700);
+		h_call(c, "recv", -1);
+	}
 	{
 		int64_t v0 = cr_vclock_ms;
 		qb_ipcc_disconnect(c);
@@ -791,12 +817,115 @@ out:
 		real_kill(fserver_pid, SIGKILL);
 		while (!cr_fserver_gone()) cr_real_sleep_us(100);
 	}
+	snap_cpid = my_pid;
 	take_snap(&s1, fserver_pid);
+	snap_cpid = 0;
 	printf("residue fds=%d files=%d dirs=%d maps=%d\n", fd_diff(&s0, &s1, 1), s1.files, s1.dirs, s1.maps);
 	/* never leave files behind, whatever the verdict */
 	{
 		char cmd[128];
-		snprintf(cmd, sizeof cmd, "rm -rf /dev/shm/qb-%d-*", (int)fserver_pid);
+		snprintf(cmd, sizeof cmd, "rm -rf /dev/shm/qb-%d-%d-*", (int)fserver_pid, (int)my_pid);
+		if (s1.files || s1.dirs) (void)system(cmd);
+	}
+}
+
+/* sidle T PRE REAP CALLS : the server dies while the client is IDLE (not inside any library call).
+ * PRE = preparation letters (E: sendv_recv answered with 2 events, which stay queued; Q: one round trip;
+ * S: send(echo), the response stays queued; N: send(request without response); H: from here on the
+ * server is stopped (SIGSTOP), so that what the client sends stays queued; -: nothing).
+ * Then the forked server is SIGKILLed.  REAP = 0: reaped before the client's next call; 1..4: still a
+ * zombie (kill(pid, 0) succeeds), reaped during the REAP-th nanosleep of qb_ipcc_disconnect; n: a zombie
+ * until qb_ipcc_disconnect has returned.  CALLS = the client's calls after the death, in order:
+ * D disconnect (last), I is_connected, S send, Q sendv_recv(-1), V event_recv(0), R recv(0), W event_recv(-1). */
+static void server_idle_death_case(enum qb_ipc_type type, const char *pre, const char *reap_s, const char *calls)
+{
+	struct snap s0, s1;
+	qb_ipcc_connection_t *c;
+	int i, a, stopped = 0, disconnected = 0;
+	int late = (reap_s[0] == 'n') ? -1 : atoi(reap_s);
+	int64_t t0;
+	siginfo_t si;
+	CR_REAL(int, kill, pid_t, int);
+
+	memset((void *)sh, 0, sizeof *sh);
+	fserver_pid = -1; fserver_reaped = 0; fserver_zombie_hold = 0;
+	cr_late_reap_at = 0; cr_late_sleeps = 0;
+	cr_vclock_ms = 0; cr_blocked_forever = 0;
+	snprintf(svc_name, sizeof svc_name, "cr%d_%d", (int)getpid(), ++svc_seq);
+	take_snap(&s0, 0);
+	fserver_pid = fork();
+	if (fserver_pid == 0) {
+		fserver_main(type);
+	}
+	t0 = cr_now_us();
+	while (!sh->s_ready && cr_now_us() - t0 < 5000000) cr_real_sleep_us(200);
+	cr_role = CR_ROLE_HCLIENT;
+	c = qb_ipcc_connect(svc_name, MAX_MSG);
+	if (!c) { printf("ERROR connect %s\n", vl_errname(errno)); goto out; }
+	for (i = 0; pre[i]; i++) {
+		ssize_t rc = 0;
+		if (pre[i] == 'E') rc = c_sendv_recv(c, REQ_EVENTS, 2, 5000, &a);
+		else if (pre[i] == 'Q') rc = c_sendv_recv(c, REQ_ECHO, 1, 5000, &a);
+		else if (pre[i] == 'N') rc = c_send(c, REQ_NORESP, 1);
+		else if (pre[i] == 'S') rc = c_send(c, REQ_ECHO, 1);
+		else if (pre[i] == 'H') {
+			cr_real_sleep_us(20000);
+			real_kill(fserver_pid, SIGSTOP);
+			stopped = 1;
+			if (waitid(P_PID, fserver_pid, &si, WSTOPPED | WNOWAIT) != 0) printf("ERROR waitid stop\n");
+		}
+		else continue;
+		if (rc < 0) printf("ERROR pre %c %s\n", pre[i], h_rc(rc));
+	}
+	/* let the server finish what the preparation started */
+	if (!stopped) cr_real_sleep_us(20000);
+	printf("queues msgs_seen=%d resp_sent=%d events_sent=%d\n", sh->s_msgs, sh->s_resp_sent, sh->s_events_sent);
+	/* the death, while the client is idle */
+	fserver_zombie_hold = 1;
+	real_kill(fserver_pid, SIGKILL);
+	memset(&si, 0, sizeof si);
+	if (waitid(P_PID, fserver_pid, &si, WEXITED | WNOWAIT) != 0) printf("ERROR waitid\n");
+	if (late == 0) fserver_reap_now();
+	printf("server idle-killed reap=%s zombie=%d\n", reap_s, !fserver_reaped);
+	cr_vclock_ms = 0;
+	for (i = 0; calls[i] && !disconnected; i++) {
+		switch (calls[i]) {
+		case 'I': h_call(c, "is_connected", 0); break;
+		case 'S': h_call(c, "send", 0); break;
+		case 'Q': h_call(c, "sendv_recv", -1); break;
+		case 'V': h_call(c, "event_recv", 0); break;
+		case 'W': h_call(c, "event_recv", -1); break;
+		case 'R': h_call(c, "recv", 0); break;
+		case 'D': {
+			int64_t v0 = cr_vclock_ms;
+			int b0 = cr_blocked_forever;
+			cr_late_sleeps = 0;
+			cr_late_reap_at = late > 0 ? late : 0;
+			qb_ipcc_disconnect(c);
+			cr_late_reap_at = 0;
+			printf("call disconnect vms=%lld%s\n", (long long)(cr_vclock_ms - v0),
+			       cr_blocked_forever > b0 ? " BLOCKED-FOREVER" : "");
+			disconnected = 1;
+			break;
+		}
+		default: printf("bad-op\n"); break;
+		}
+	}
+	if (!disconnected) printf("ERROR script without D\n");
+out:
+	cr_role = CR_ROLE_NONE;
+	if (fserver_pid > 0 && !fserver_reaped) {
+		real_kill(fserver_pid, SIGKILL);
+		fserver_reap_now();
+	}
+	snap_cpid = my_pid;
+	take_snap(&s1, fserver_pid);
+	snap_cpid = 0;
+	printf("residue fds=%d files=%d dirs=%d maps=%d\n", fd_diff(&s0, &s1, 1), s1.files, s1.dirs, s1.maps);
+	/* never leave files behind, whatever the verdict */
+	{
+		char cmd[128];
+		snprintf(cmd, sizeof cmd, "rm -rf /dev/shm/qb-%d-%d-*", (int)fserver_pid, (int)my_pid);
 		if (s1.files || s1.dirs) (void)system(cmd);
 	}
 }
@@ -841,10 +970,13 @@ int main(int argc, char **argv)
 			cd_run('h', parse_type(tok[1]), "", atoi(tok[3]), parse_mode(tok[2]), 0);
 		} else if (!strcmp(tok[0], "sdry") && nt >= 5) {
 			/* sdry T PRE API TMO */
-			server_death_case(parse_type(tok[1]), tok[2], tok[3], atoi(tok[4]), 0, 1);
+			server_death_case(parse_type(tok[1]), tok[2], tok[3], atoi(tok[4]), 0, 1, 0);
 		} else if (!strcmp(tok[0], "sdeath") && nt >= 6) {
-			/* sdeath T PRE API TMO S */
-			server_death_case(parse_type(tok[1]), tok[2], tok[3], atoi(tok[4]), atoi(tok[5]), 0);
+			/* sdeath T PRE API TMO S [D]   (D: no later calls, straight to qb_ipcc_disconnect) */
+			server_death_case(parse_type(tok[1]), tok[2], tok[3], atoi(tok[4]), atoi(tok[5]), 0, nt >= 7 && tok[6][0] == 'D');
+		} else if (!strcmp(tok[0], "sidle") && nt >= 5) {
+			/* sidle T PRE REAP CALLS */
+			server_idle_death_case(parse_type(tok[1]), tok[2], tok[3], tok[4]);
 		} else {
 			printf("bad-op\n");
 		}
